@@ -44,7 +44,7 @@ func prepareTextShards(ctx *Ctx, prop string, ncases int, reach []string, budget
 }
 
 // textCases is the number of schema cases in harness/text (NCases there).
-const textCases = 143
+const textCases = 145
 
 func textBudget(ctx *Ctx) float64 {
 	if ctx.Tier == "thorough" {
@@ -56,7 +56,7 @@ func textBudget(ctx *Ctx) float64 {
 func PrepareC11(ctx *Ctx) (*Prepared, error) {
 	p := prepareTextShards(ctx, "C11", textCases, []string{"c11"}, textBudget(ctx))
 	p.Bounds = map[string]interface{}{
-		"cases":   "143 schema ASTs: 43 single-construct schemas (enums over every base type, [flags], structs with every type-expression form, readonly, integer and 4-character opcodes, messages, unions, consts of every literal form, imports, go_package, doc comments and deprecations) + all 100 ordered pairs of 10 attributed definition kinds",
+		"cases":   "145 schema ASTs: 45 single-construct schemas (enums over every base type incl. negative hexadecimal members, [flags], structs with every type-expression form, readonly, integer and 4-character opcodes, messages, unions, consts of every literal form, imports, go_package, doc comments, block comments in bodies, deprecations on first/last/union members, end-of-line comments, consts followed by documented definitions) + all 100 ordered pairs of 10 attributed definition kinds (each pair one definition per line, each definition on one line, and both on the same line)",
 		"layouts": "LF / CRLF, space / tab indentation, one-line / multi-line; one separator byte symbolic over {space, tab}",
 		"outside": "schemas outside the case list; comment placements other than directly above a definition, field or option; more than one symbolic character per identifier",
 	}
@@ -66,14 +66,14 @@ func PrepareC11(ctx *Ctx) (*Prepared, error) {
 
 func PrepareC16(ctx *Ctx) (*Prepared, error) {
 	p := prepareTextShards(ctx, "C16", textCases, nil, textBudget(ctx))
-	p.Bounds = map[string]interface{}{"cases": "the 143 schema ASTs of C11 restricted to texts ReadFile accepts, in the same layouts", "compared": "every File field except comments and comment-derived tags"}
+	p.Bounds = map[string]interface{}{"cases": "the 145 schema ASTs of C11 restricted to texts ReadFile accepts, in the same layouts", "compared": "every File field except comments and comment-derived tags"}
 	p.Explanation = "bounded symbolic execution of bebop.Format followed by bebop.ReadFile on its output; the two Files must be equal up to comments"
 	return p, nil
 }
 
 func PrepareC17(ctx *Ctx) (*Prepared, error) {
 	p := prepareTextShards(ctx, "C17", textCases, nil, textBudget(ctx))
-	p.Bounds = map[string]interface{}{"cases": "the 143 schema ASTs of C11 restricted to texts ReadFile accepts and Format processes without error"}
+	p.Bounds = map[string]interface{}{"cases": "the 145 schema ASTs of C11 restricted to texts ReadFile accepts and Format processes without error"}
 	p.Explanation = "bounded symbolic execution of bebop.Format applied twice; the two outputs are compared byte for byte (symbolic bytes included)"
 	return p, nil
 }
